@@ -9,8 +9,6 @@ import (
 	"sort"
 	"strings"
 
-	"github.com/cloudwego/eino/compose"
-
 	gg "verif/harness/graphgen"
 	"verif/harness/lib"
 )
@@ -196,7 +194,7 @@ func sortedKeys[T any](m map[uint64]T) []uint64 {
 
 func runChan(c *ChanCase) (obs []chanObs, panicked any) {
 	panicked = lib.Recover(func() {
-		ch := compose.VerifNewDagChannel(names(c.Ctrl), names(c.Data))
+		ch := newDagChan(names(c.Ctrl), names(c.Data))
 		for _, op := range c.Ops {
 			o := chanObs{Ret: "none", retCoq: "RNone"}
 			switch op.Op {
@@ -341,6 +339,11 @@ func chanOracle(c *ChanCase, obs []chanObs) (string, string) {
 func (engine) Run(c any) lib.Result {
 	cs := c.(*Case)
 	if cs.Chan != nil {
+		if !whiteboxAvailable {
+			// built without the white-box group (tag verif_c02wb): the hook compose/verif_c02.go is not there (e.g. it no
+			// longer compiles after a rename in dag.go); the black-box tie runs alone
+			return lib.Result{Obs: map[string]any{"whitebox": "unavailable"}, Tags: []string{"kind:chan", "whitebox:unavailable"}}
+		}
 		obs, p := runChan(cs.Chan)
 		res := lib.Result{Obs: map[string]any{"ops": obs, "panic": fmt.Sprint(p)}, Tags: []string{"kind:chan", fmt.Sprintf("ops:%d", len(cs.Chan.Ops)/5*5)}}
 		if p != nil {
